@@ -15,3 +15,6 @@ open AC.Props.C01
 #print axioms C01_driver_agrees
 #print axioms C01_ensemble_total
 #print axioms C01_primitivePre_ok
+#print axioms C01_src_dictsum
+#print axioms C01_src_dictsum_total
+#print axioms AC.DictSumTie.dictsumchain_tie
